@@ -15,7 +15,7 @@ Notation R := (cR c).
 Definition hb_with_capacity (fallible : bool) (cap : N) : M' (option hb) :=
   if cap =? 0 then ret (Some hb_new) else
   match cap_to_buckets cap with
-  | Some B => if layout_ok (cesz c) B then tick_alloc ;;; ret (Some (HB B (bcap B) ∅))
+  | Some B => if layout_ok (cesz c) B then tick_alloc ;;; ret (Some (hb_empty B))
               else if fallible then ret None else unwind PCapOverflow
   | None => if fallible then ret None else unwind PCapOverflow
   end.
@@ -30,7 +30,7 @@ Definition hb_reserve_rehash1 (t : hb) : M' hb :=
   let items := hlen t in
   let full := bcap (hB t) in
   if items + 1 <=? full / 2 then
-    rehash_all (map_to_list (hel t)).*2 ;;; ret (HB (hB t) (full - items) (hel t))
+    rehash_all (map_to_list (hel t)).*2 ;;; ret (hb_rebuilt t (hB t) (full - items))
   else
     nt <- hb_with_capacity false (N.max (items + 1) (full + 1)) ;;
     match nt with
@@ -39,17 +39,17 @@ Definition hb_reserve_rehash1 (t : hb) : M' hb :=
         (* a panicking hasher frees the new table and leaves the old one as it was *)
         on_unwind (rehash_all (map_to_list (hel t)).*2) (hb_free nt) ;;;
         hb_free t ;;;
-        ret (HB (hB nt) (bcap (hB nt) - items) (hel t))
+        ret (hb_rebuilt t (hB nt) (bcap (hB nt) - items))
     end.
 
 (* the slot choice of an insertion: reuse a tombstone (oracle) or take an EMPTY slot *)
 Definition hb_put (t : hb) (e : elem) (reuse : bool) : M' hb :=
   if reuse then
     if hb_tombs t =? 0 then fault_ FOracle
-    else ret (HB (hB t) (hgl t) (<[ek e := e]> (hel t)))
+    else ret (hb_ins t e (hgl t))
   else
     if hgl t =? 0 then fault_ FGlUnderflow
-    else ret (HB (hB t) (hgl t - 1) (<[ek e := e]> (hel t))).
+    else ret (hb_ins t e (hgl t - 1)).
 
 (* RawTable::insert_no_grow *)
 Definition hb_insert_no_grow (t : hb) (e : elem) : M' hb :=
@@ -76,16 +76,16 @@ Definition hb_remove (t : hb) (k : N) : M' (elem * hb) :=
   | None => fault_ FVacant
   | Some e =>
       tomb <- take_tomb ;;
-      ret (e, HB (hB t) (if tomb then hgl t else hgl t + 1) (delete k (hel t)))
+      ret (e, hb_del t k (if tomb then hgl t else hgl t + 1))
   end.
 
 (* RawTable::clear: an empty table is left as it is, tombstones included *)
 Definition hb_clear (t : hb) : M' hb :=
   if hlen t =? 0 then ret t
-  else drop_elems (map_to_list (hel t)).*2 ;;; ret (HB (hB t) (bcap (hB t)) ∅).
+  else drop_elems (map_to_list (hel t)).*2 ;;; ret (hb_empty (hB t)).
 
 (* RawTable::clear_no_drop on a table without elements *)
-Definition hb_clear_no_drop (t : hb) : hb := HB (hB t) (bcap (hB t)) ∅.
+Definition hb_clear_no_drop (t : hb) : hb := hb_empty (hB t).
 
 (* RawTable::shrink_to *)
 Definition hb_shrink_to (t : hb) (min_size : N) : M' hb :=
@@ -101,7 +101,7 @@ Definition hb_shrink_to (t : hb) (min_size : N) : M' hb :=
              | Some nt =>
                  on_unwind (rehash_all (map_to_list (hel t)).*2) (hb_free nt) ;;;
                  hb_free t ;;;
-                 ret (HB (hB nt) (bcap (hB nt) - hlen t) (hel t))
+                 ret (hb_rebuilt t (hB nt) (bcap (hB nt) - hlen t))
              end
            else ret t
        end.
@@ -145,7 +145,7 @@ Definition old_pop : M' (option elem) :=
       if oit o =? 0 then ret None
       else match orem o with
            | [] => fault_ FOverRead
-           | e :: r => setlo (Some (Old (oB o) r (oit o - 1))) ;;; ret (Some e)
+           | e :: r => setlo (Some (Old (oB o) r (oit o - 1) (ocnt o - 1))) ;;; ret (Some e)
            end
   end.
 
@@ -159,9 +159,9 @@ Definition old_take (k : N) : M' elem :=
       | None => fault_ FVacant
       | Some e =>
           let r := remove_list k (orem o) in
-          if czst c then setlo (Some (Old (oB o) r (N.of_nat (length r)))) ;;; ret e
+          if czst c then setlo (Some (Old (oB o) r (ocnt o - 1) (ocnt o - 1))) ;;; ret e
           else if oit o =? 0 then fault_ FItemsUnderflow
-               else setlo (Some (Old (oB o) r (oit o - 1))) ;;; ret e
+               else setlo (Some (Old (oB o) r (oit o - 1) (ocnt o - 1))) ;;; ret e
       end
   end.
 
@@ -238,7 +238,7 @@ Definition rt_try_grow (fallible : bool) (extra : N) : M' bool :=
          l <- take_order_grow (hel t) ;;
          free_old ;;;                 (* assignment to self.leftovers drops a previous value *)
          setm nt ;;;
-         setlo (Some (Old (hB t) l (hlen t)))) ;;;
+         setlo (Some (Old (hB t) l (hlen t) (hlen t)))) ;;;
       ret true
   end.
 
@@ -308,7 +308,7 @@ Definition rt_replace_bucket_with (in_main : bool) (k : N) (f : elem -> M' (opti
     setm (snd x) ;;;
     r <- f (fst x) ;;
     match r with
-    | Some e' => setm (HB (hB t) (hgl t) (<[k := e']> (delete k (hel t)))) ;;; ret true
+    | Some e' => setm (HB (hB t) (hgl t) (hn t) (<[k := e']> (delete k (hel t)))) ;;; ret true
     | None => ret false
     end
   else
@@ -319,7 +319,7 @@ Definition rt_replace_bucket_with (in_main : bool) (k : N) (f : elem -> M' (opti
         e <- old_take k ;;
         r <- f e ;;
         match r with
-        | Some e' => setlo (Some (Old (oB o) (replace_list e' (orem o)) (oit o))) ;;; ret true
+        | Some e' => setlo (Some (Old (oB o) (replace_list e' (orem o)) (oit o) (ocnt o))) ;;; ret true
         | None => ret false
         end
     end.
@@ -395,7 +395,7 @@ Definition hb_clone_from_with_hasher (t s : hb) : M' hb :=
     (* clone, then hash each element; on a panic the destination is cleared again *)
     iterM (fun e => cb ;;; on_unwind cb (drop_key (ekid e)) ;;; on_unwind tick_hash (drop_elem e)) els ;;;
     (if hgl t1 <? hlen s then if cdebug c then unwind (PDebugAssert 3647) else fault_ FGlUnderflow
-     else ret (HB (hB t1) (hgl t1 - hlen s) (hel s)))
+     else ret (HB (hB t1) (hgl t1 - hlen s) (hn s) (hel s)))
   else
     if hB s =? 1 then
       drop_elems (map_to_list (hel t)).*2 ;;; hb_free t ;;; ret hb_new
